@@ -247,7 +247,10 @@ def gen_motif(prng, max_edges):
 
 def gen_operands(prng, verts, kind):
     if kind == "float":
-        return {"kind": kind, "phi": round(prng.random(), 6), "u": [[v, round(prng.random(), 6)] for v in verts]}
+        d = {"kind": kind, "phi": round(prng.random(), 6), "u": [[v, round(prng.random(), 6)] for v in verts]}
+        if prng.random() < 0.2:
+            d["np"] = True              # operands as numpy float64 scalars
+        return d
     if kind == "exact":
         return {"kind": kind, "phi": [prng.randrange(0, GRID + 1), GRID],
                 "u": [[v, [prng.randrange(0, GRID + 1), GRID]] for v in verts]}
@@ -442,6 +445,9 @@ def generate(prng, tier, index):
 
 def operands(ev, verts, counter=None):
     k = ev["kind"]
+    if k == "float" and ev.get("np"):
+        import numpy as np
+        return np.float64(ev["phi"]), {v: np.float64(x) for v, x in ev["u"]}
     if k == "float":
         return float(ev["phi"]), {v: float(x) for v, x in ev["u"]}
     if k == "exact":
